@@ -381,3 +381,100 @@ func rulePartiallyFilledSlots(c *core.Ctx) {
 	}
 	c.Stats["partially_filled_pointer_slices"] = n
 }
+
+// ruleCallerBindingWins (C37): running a template with variables means the caller's value for a
+// variable replaces the declared default. In ResolveFilterTemplate both are written into one map:
+// every write of a default comes before every write of a caller value (a default written after —
+// in a merged loop for instance — wins over the binding).
+func ruleCallerBindingWins(c *core.Ctx) {
+	d := fn(c, pkgQueries, "", "ResolveFilterTemplate")
+	if d == nil {
+		return
+	}
+	info := d.Pkg.TypesInfo
+	key := declKey(d)
+	var defaults, bindings []token.Pos
+	ast.Inspect(d.Decl.Body, func(x ast.Node) bool {
+		as, ok := x.(*ast.AssignStmt)
+		if !ok || len(as.Lhs) != 1 || len(as.Rhs) != 1 {
+			return true
+		}
+		ix, ok := ast.Unparen(as.Lhs[0]).(*ast.IndexExpr)
+		if !ok {
+			return true
+		}
+		if _, isMap := info.TypeOf(ix.X).Underlying().(*types.Map); !isMap {
+			return true
+		}
+		rhs := nospace(types.ExprString(as.Rhs[0]))
+		if strings.HasSuffix(rhs, ".Default") {
+			defaults = append(defaults, as.Pos())
+		} else {
+			bindings = append(bindings, as.Pos())
+		}
+		return true
+	})
+	if len(defaults) == 0 || len(bindings) == 0 {
+		c.Unrecognised("DOM/template-vars", key+":binding-over-default", pos(c, d.Decl), "the writes of defaults and of caller values into the variable map were not both found")
+		return
+	}
+	ok := true
+	for _, dp := range defaults {
+		for _, bp := range bindings {
+			if dp > bp {
+				ok = false
+			}
+		}
+	}
+	c.Check(ok, "DOM/template-vars", key+":binding-over-default", pos(c, d.Decl), "defaults first, caller values over them", "ResolveFilterTemplate writes a declared default after the caller's value for the same variable: a variable that has a default always resolves to the default, whatever the run request binds")
+}
+
+// ruleValidatorsRejectStrings (C38): the value of a filter on a numeric or boolean field must be
+// of that kind when it reaches SQL. A ValidateValue that accepts a plain string without parsing
+// it lets `id < 'abc'` through to Postgres, which answers with an error the handlers report as 500.
+func ruleValidatorsRejectStrings(c *core.Ctx) {
+	n := 0
+	for _, tn := range []string{"TypeNumeric", "TypeBoolean"} {
+		d := index(c).LookupFunc(pkgQueries, tn, "ValidateValue")
+		if d == nil || d.Decl.Body == nil {
+			continue
+		}
+		n++
+		info := d.Pkg.TypesInfo
+		key := declKey(d)
+		bad := ast.Node(nil)
+		ast.Inspect(d.Decl.Body, func(x ast.Node) bool {
+			cc, ok := x.(*ast.CaseClause)
+			if !ok {
+				return true
+			}
+			hasString := false
+			for _, e := range cc.List {
+				if t := info.TypeOf(e); t != nil {
+					if b, isB := t.Underlying().(*types.Basic); isB && b.Info()&types.IsString != 0 {
+						hasString = true
+					}
+				}
+			}
+			if !hasString {
+				return true
+			}
+			// accepted without being parsed: a `return nil` with no call in the clause
+			calls := 0
+			ast.Inspect(cc, func(y ast.Node) bool {
+				if _, isCall := y.(*ast.CallExpr); isCall {
+					calls++
+				}
+				return true
+			})
+			for _, st := range cc.Body {
+				if r, isR := st.(*ast.ReturnStmt); isR && len(r.Results) == 1 && astx.IsNilExpr(info, r.Results[0]) && calls == 0 {
+					bad = cc
+				}
+			}
+			return true
+		})
+		c.Check(bad == nil, "HTTP/filter-validation", key+":strings-not-accepted-as-is", pos(c, d.Decl), "a string is not a "+tn+" value unless it is parsed", tn+".ValidateValue accepts any string: a filter such as `{\"$lt\":{\"id\":\"abc\"}}` passes validation, is rendered as `id < 'abc'`, and the database error comes back as 500 instead of 400")
+	}
+	c.Floor("HTTP/filter-validation", "typed filter validators examined for string acceptance", n, 1)
+}
